@@ -168,9 +168,10 @@ class ConstantLengthTupleProvider(LoaderProvider, DumperProvider):
 
         def dt_disable_non_sc_loader(data):
             try:
-                data_len = len(data)
+                data = tuple(data)  # as the loaders of the other debug trail modes do: any iterable is accepted
             except TypeError:
                 raise TypeLoadError(tuple, data)
+            data_len = len(data)
 
             if data_len != loaders_len:
                 if data_len > loaders_len:
@@ -195,9 +196,10 @@ class ConstantLengthTupleProvider(LoaderProvider, DumperProvider):
                 raise ExcludedTypeLoadError(tuple, str, data)
 
             try:
-                data_len = len(data)
+                data = tuple(data)  # as the loaders of the other debug trail modes do: any iterable is accepted
             except TypeError:
                 raise TypeLoadError(tuple, data)
+            data_len = len(data)
 
             if data_len != loaders_len:
                 if data_len > loaders_len:
